@@ -915,6 +915,7 @@ package rux
 //@   vars allowed
 //@   invariant 0 <= iterpos && iterpos <= itercard && len(allowed) == iterpos && (arr(allowed) == nil || fresh(arr(allowed)))
 //@   invariant forall q int :: 0 <= q && q < iterpos ==> allowed[q] == iterkey(q)
+//@   invariant forall x string :: iterdom(x) && iterord(x) < iterpos ==> 0 <= iterord(x) && allowed[iterord(x)] == x
 //@   invariant tablesWF(r) && (prefixof("/", path) ==> cacheNN(r)) && (old(chainsFit(r)) ==> chainsFit(r))
 
 // ---------------------------------------------------------------------------
@@ -949,13 +950,15 @@ package rux
 //@ func (*Router).parseParamRoute [C13, C01, C02]
 //@   requires route != nil && varRegex != nil
 //@   panics *
-//@   modifies route.regex, route.matches, route.spath, route.start, allelems([]string), firstSeg(route)
+//@   modifies route.regex, route.matches, route.spath, route.start, elems(route.matches), firstSeg(route)
 //@   ghostset firstSeg(route) = first
 //@   ensures first_recorded: firstSeg(route) == first
 //@   ensures groups_match_vars: routeWF(route)
 //@ loop (*Router).parseParamRoute #0
-//@   vars rangeindex
+//@   vars rangeindex, rawVar, varRegex
 //@   invariant -1 <= rangeindex
+//@   invariant arr(route.matches) == old(arr(route.matches)) || fresh(arr(route.matches))
+//@   invariant (arr(rawVar) == nil || fresh(arr(rawVar))) && (arr(varRegex) == nil || fresh(arr(varRegex)))
 
 // ---------------------------------------------------------------------------
 // Registration: tables (C01, C13, C15, C12). R-reg: registration happens before the first request, so the
@@ -991,8 +994,9 @@ package rux
 //@ func (*Router).appendRoute [C01, C13, C15, C12]
 //@   reveals routeWF
 //@   requires route != nil && tablesCore(r) && tablesSep(r) && noCacheEntries(r) && methodsTable() && varRegex != nil && len(route.handlers) < 63
+//@   requires arr(route.matches) == nil || arr(route.matches) != arr(route.methods)
 //@   panics *
-//@   modifies route.handlers, route.path, route.regex, route.matches, route.spath, route.start, allelems([]string), allelems([]*Route)
+//@   modifies route.handlers, route.path, route.regex, route.matches, route.spath, route.start, elems(route.matches), allelems([]*Route)
 //@   modifies r.counter, entries(r.namedRoutes), entries(r.stableRoutes), entries(r.regularRoutes), entries(r.irregularRoutes), isReg(route), firstSeg(route)
 //@   ghostset isReg(route) = true
 //@   ensures[C13] accepted_is_valid: route.handler != nil && len(route.methods) > 0 && len(route.handlers) < 63
@@ -1049,8 +1053,9 @@ package rux
 
 //@ func (*Router).AddRoute [C01, C13, C14, C15]
 //@   requires route != nil && tablesWF(r) && tablesSep(r) && noCacheEntries(r) && methodsTable() && varRegex != nil && len(route.handlers) < 63
+//@   requires arr(route.matches) == nil || arr(route.matches) != arr(route.methods)
 //@   panics *
-//@   modifies route.handlers, route.path, route.regex, route.matches, route.spath, route.start, allelems([]string), allelems([]*Route)
+//@   modifies route.handlers, route.path, route.regex, route.matches, route.spath, route.start, elems(route.matches), allelems([]*Route)
 //@   modifies r.counter, entries(r.namedRoutes), entries(r.stableRoutes), entries(r.regularRoutes), entries(r.irregularRoutes), isReg(route), firstSeg(route)
 //@   modifies r.cachedRoutes, lmem(_, _), lclock(_), ln(_), guard(_)
 //@   ensures wf: tablesWF(r) && tablesSep(r) && noCacheEntries(r) && result == route
